@@ -97,9 +97,9 @@ def run(v):
     shutil.rmtree(out, ignore_errors=True)
     os.makedirs(out, exist_ok=True)
     if v.tier == "quick":
-        extra = ["-n", "60", "-budget", "14s", "-small", "-eptime", "4s", "-snapdup", "3"]
+        extra = ["-n", "60", "-budget", "14s", "-small", "-eptime", "4s", "-snapdup", "3", "-regsched", "2", "-regstress", "8"]
     else:
-        extra = ["-n", "600", "-budget", "25m", "-snapdup", "12"]
+        extra = ["-n", "600", "-budget", "25m", "-snapdup", "12", "-regsched", "3", "-regstress", "80"]
     rc, o = run_harness(v, out, extra)
     if rc != 0 or not os.path.exists(os.path.join(out, "stats.json")):
         v.violation("C12/harness-run", "stress harness failed (rc=%s): %s" % (rc, o[-1500:]),
@@ -115,17 +115,23 @@ def run(v):
     races = parse_races(out)
     race_sigs = sorted(set(r["signature"] for r in races))
     kinds = sum(1 for k, n in ops_total.items() if n > 0)
-    scen = [k for k in ("f9", "snapdup", "halfinit") if extra_s.get(k)]
+    scen = [k for k in ("f9", "snapdup", "halfinit", "regstress") if extra_s.get(k)]
+    reg_cases = sum(n for k, n in (stats.get("classes") or {}).items() if k.startswith("regsched/"))
     v.coverage.update({
         "evaluations": n_calls + total,
-        "distinct_nontrivial": len([e for e in eps if sum((e.get("ops") or {}).values()) > 0]) + len(scen),
+        "distinct_nontrivial": len([e for e in eps if sum((e.get("ops") or {}).values()) > 0]) + len(scen) + stats.get("distinct_nontrivial", 0),
         "rule": "one evaluation = one call of a daemon operation by a stress goroutine (plus the model-side cases). An episode = one "
                 "Store + one source database with live writer goroutines, a seeded random configuration (goroutines, checkpoint thresholds, "
                 "MaxSyncWALBytes, monitors on/off, cancelled Close, guarded/free mode), concurrent RegisterDB of one path, then N goroutines "
                 "drawing from 25 operation kinds (Sync, SyncDB, Replica.Sync, Checkpoint x4 modes, Snapshot, abandoned SnapshotReader, "
                 "Compact L1/L2/snapshot level, three retention entry points, status queries, CRC64, Validate, Register/Unregister, "
                 "Enable/Disable) with live/expiring/cancelled contexts, then concurrent Store.Close/DisableDB, then the oracles. "
-                "distinct_nontrivial = episodes that executed at least one operation (distinct seeds/configurations) + the dedicated scenarios run. "
+                "distinct_nontrivial = episodes that executed at least one operation (distinct seeds/configurations) + the dedicated scenarios run "
+                "+ the distinct enumerated registry schedules (model cases `conc_register`: an initial slice in {[],[B],[B,C]}, one or two "
+                "RegisterDB calls parked between their two checks by a slog.Handler on Store.Logger, every sequence of up to L whole "
+                "RegisterDB/UnregisterDB calls over paths A..D meanwhile, both resume orders; implementation's final slice and per-call outcome "
+                "compared with the extracted Registry model, plus the at-most-one-instance-per-path oracle after every micro-step and the "
+                "losers-are-closed oracle). "
                 "Schedules are not controlled: the same seed explores a different interleaving each run.",
         "samples": [json.dumps(eps[0])[:1500]] if eps else ["(no episode fit in the budget)"],
         "input_distribution": ops_total,
@@ -133,7 +139,8 @@ def run(v):
         "operation_kinds_exercised": kinds,
         "snapshots_checked_against_l0_chain": sum(e.get("snapshots_checked", 0) for e in eps),
         "app_commits_during_stress": sum(e.get("app_commits", 0) for e in eps),
-        "scenarios": {k: extra_s.get(k) for k in ("f9", "snapdup", "halfinit")},
+        "scenarios": {k: extra_s.get(k) for k in ("f9", "snapdup", "halfinit", "regsched", "regstress")},
+        "registry_schedules_compared_with_model": reg_cases,
         "race_reports": len(races),
         "race_report_groups": race_sigs,
         "lock_trace_hook": bool(extra_s.get("trace_hook")),
@@ -198,6 +205,11 @@ def replay(v, path):
         extra = ["-n", str(int(r["episode"]) + 1), "-only", str(int(r["episode"]))]
     elif "history" in r:
         extra = ["-n", "0"]
+    elif "schedule" in r or "round" in r:
+        extra = ["-n", "0", "-f9=false", "-snapdup", "0", "-halfinit=false"]
+    elif "case_lines" in r:
+        print("model/implementation case:", r["case_lines"])
+        extra = ["-n", "0", "-f9=false", "-snapdup", "0", "-halfinit=false", "-regstress", "0"]
     else:
         print("replay file names no input:", r.get("theorem_or_correspondence"))
         return 1
